@@ -427,7 +427,9 @@ package bgp
 // from C06 "treat-as-withdraw ... its NLRI withdrawn": MP_REACH_NLRI / MP_UNREACH_NLRI carry the prefixes themselves;
 // when one of them fails to decode (for whatever reason, a flags conflict included) its prefixes are not available
 // and treat-as-withdraw would withdraw nothing - the reaction is the attribute's own, stronger one
-//@   loop 1 step e != nil && (p.GetType() == BGP_ATTR_TYPE_MP_REACH_NLRI || p.GetType() == BGP_ATTR_TYPE_MP_UNREACH_NLRI) ==> errClass(e) > ERROR_HANDLING_TREAT_AS_WITHDRAW
+// (t is the type code the decoder stored in the attribute: the class is looked up for that code)
+//@   at-call getErrorHandlingFromPathAttribute( requires arg0 == p.GetType()
+//@   loop 1 step e != nil && (t == BGP_ATTR_TYPE_MP_REACH_NLRI || t == BGP_ATTR_TYPE_MP_UNREACH_NLRI) ==> errClass(e) > ERROR_HANDLING_TREAT_AS_WITHDRAW
 // ... and whatever the function returns, from whichever exit, is at least as strong as everything remembered so
 // far and as the error just raised for the current attribute
 //@   at-return requires errClass(ret0) >= errClass(strongestError)
